@@ -106,6 +106,15 @@ def r1(chk, prog):
                 detail = 'append()/formatDateTime() is not given the current field definition'
         if ok and name in DEFAULT_FMT:
             lit = [x.get('val') for x in walk(call_args(sink[0])[2]) if x.get('k') == 'StringLiteral']
+            if not lit:
+                # a named constant of the function: its initialiser is the default format
+                for x in walk(call_args(sink[0])[2]):
+                    if x.get('k') == 'DeclRefExpr' and x['ref'].get('sto') != 'param' and x['ref'].get('did'):
+                        for ds in f.walk():
+                            for d in (ds.get('decls', []) if ds.get('k') == 'DeclStmt' else []):
+                                if d.get('did') == x['ref'].get('did') and isinstance(d.get('init'), dict) and \
+                                        'const' in (d.get('t') or ''):
+                                    lit += [y.get('val') for y in walk(d['init']) if y.get('k') == 'StringLiteral']
             ok = lit == [DEFAULT_FMT[name]]
             detail = 'default format %s, expected %r' % (lit, DEFAULT_FMT[name])
         if ok and name == 'constant':
@@ -507,6 +516,35 @@ def r5_message_getters(chk, prog):
                   'describe the same instant)' % g, f.loc(), 'uses %s' % bad)
 
 
+def r6_no_memo(chk, prog):
+    """R6: every field is computed from the message that is being rendered: no function of the rendering units keeps
+    a function-local static whose initialiser uses a parameter, a local or the object - such a memo is fixed by the
+    first message (first process id, first text, ...) and served to every later message (rule shared with C09-R4)"""
+    n_static = 0
+    seen = set()
+    for f in prog.functions:
+        if f.body is None or '/log/' not in f.file:
+            continue
+        for n_ in f.walk():
+            if n_.get('k') != 'DeclStmt':
+                continue
+            for d in n_.get('decls', []):
+                if not d.get('static') or (f.file, n_.get('l'), d['name']) in seen:
+                    continue
+                seen.add((f.file, n_.get('l'), d['name']))
+                n_static += 1
+                deps = []
+                if isinstance(d.get('init'), dict):
+                    for x in walk(d['init']):
+                        if x.get('k') == 'CXXThisExpr':
+                            deps.append('this')
+                        elif x.get('k') == 'DeclRefExpr' and x.get('ref', {}).get('sto') in ('param', 'local'):
+                            deps.append(x['ref']['name'])
+                chk.check(not deps, 'R6', f.name, 'function-local static %s does not memoise data of the first message'
+                          % d['name'], f.loc(n_), 'its initialiser uses %s' % ', '.join(sorted(set(deps))))
+    chk.ok('R6', '', 'function-local statics in the rendering units: %d' % n_static)
+
+
 def run(chk):
     units = units_matching('library/log/formatting/', 'library/log/detail/log_attributes_container.cpp',
                            'library/log/detail/log_scoped_attribute.cpp', 'library/log/log_attributes.cpp',
@@ -533,3 +571,5 @@ def run(chk):
     r3_global_forwarding(chk, prog)
     r4(chk, prog)
     r5_message_getters(chk, prog)
+    chk.rule('R6', 'no function-local static memoises data of the first message', 1)
+    r6_no_memo(chk, prog)
